@@ -364,6 +364,10 @@ def count_obligations(res, crate):
                 continue
             if cur and re.match(r'^\s*\(assert\s*$', ln):
                 counts[cur] = counts.get(cur, 0) + 1
+                # trait-impl methods are named after their Self type: also keyed by the module log they sit in
+                mod = fn.split('.air')[0].split(crate + '!')[0]
+                key = '%s@%s' % (cur, mod)
+                counts[key] = counts.get(key, 0) + 1
     return counts
 
 
